@@ -666,7 +666,7 @@ static int applicable (int n, char **t, int *a)
   if (!strcmp (op, "newfun"))
     return n == 4 && SL (a[1]) && SL (a[3]) && objok (a[2]) && !objkind[a[2]];
   if (!strcmp (op, "newffun"))
-    return n == 4 && lpc_mode && SL (a[1]) && objok (a[2]) && !objkind[a[2]] && a[3] >= 0 && a[3] < 4;
+    return n == 4 && lpc_mode && SL (a[1]) && objok (a[2]) && !objkind[a[2]] && a[3] >= 0 && a[3] < 6;
   if (!strcmp (op, "newobjr"))
     return n == 3 && a[1] >= 0 && a[1] < NOBJ && a[2] >= 0 && a[2] < NLAY && !hobj (a[1]) && !exist_used[a[1]];
   if (!strcmp (op, "replace"))
